@@ -260,6 +260,7 @@ Conjugate_gradient_on_the_normal_equations>`_.
     # Normal-equation residual ``A^T d`` at rounding level relative to the
     # start: further iterations would only amplify rounding noise
     sqnorm_s_stop = sqnorm_s_old * np.finfo(float).eps ** 2
+    sqnorm_d_old = d.norm() ** 2
 
     for _ in range(niter):
         if sqnorm_s_old <= sqnorm_s_stop:  # Converged (also if start is exact)
@@ -273,6 +274,19 @@ Conjugate_gradient_on_the_normal_equations>`_.
         a = sqnorm_s_old / sqnorm_q
         x.lincomb(1, x, a, p)               # x = x + a*p
         d.lincomb(1, d, -a, q)              # d = d - a*Ap
+
+        # In exact arithmetic the residual never increases. If it does by
+        # more than rounding, ``A^T d`` is at rounding level (its size
+        # relative to the start need not be: the residual can be large
+        # compared to the initial gradient) and further steps would only
+        # amplify noise. A residual that merely stagnates is no reason to
+        # stop, ``x`` may still improve.
+        sqnorm_d_new = d.norm() ** 2
+        if sqnorm_d_new > sqnorm_d_old * (1 + 100 * np.finfo(float).eps):
+            x.lincomb(1, x, -a, p)          # undo the step
+            d.lincomb(1, d, a, q)
+            return
+        sqnorm_d_old = sqnorm_d_new
         op.derivative(p).adjoint(d, out=s)  # s = A^T d
 
         sqnorm_s_new = s.norm() ** 2
